@@ -176,6 +176,17 @@ int main()
       }
       delete ag;
       cvm::clear_error();
+    } else if (cmd == "PDT") {
+      // PDT <a> <b> <c> <p1> <p2>: position_distance in the triclinic cell with vectors a, b, c
+      if (!S.proxy) S.fresh();
+      cvm::rvector a3 = v3(), b3 = v3(), c3 = v3();
+      S.proxy->boundaries_type = colvarproxy_system::boundaries_pbc_triclinic;
+      S.proxy->unit_cell_x = a3; S.proxy->unit_cell_y = b3; S.proxy->unit_cell_z = c3;
+      S.proxy->update_pbc_lattice();
+      cvm::rvector p1 = v3(), p2 = v3();
+      cvm::rvector d = S.proxy->position_distance(p1, p2);
+      o << "ok " << H(d.x) << " " << H(d.y) << " " << H(d.z) << "\n";
+      S.proxy->update_cell();
     } else if (cmd == "PD") {
       if (!S.proxy) S.fresh();
       S.eng.has_cell = ni() != 0;
